@@ -758,6 +758,44 @@ def check(chk, tag, gens_queries, oracle, rule, nontrivial_key, d13=True):
             'bake_failures_generated': sum(1 for rg, _ in gens_queries if rg.failed)}
 
 
+RVARIANTS = [('display mL / mmol', {'volume_display_unit': 'mL', 'moles_display_unit': 'mmol'}),
+             ('storage mL / umol', {'volume_storage_unit': 'mL'}),
+             ('storage uL / mmol', {'moles_storage_unit': 'mmol'})]
+
+
+def variants(chk, gens_queries, oracle, tag, limit=8):
+    """the first recipes (and their queries) again, in a separate process, under configurations that differ in display or storage
+    units: the property oracle only, against the eager ledger built at generation (which is in uL / umol whatever the variant)"""
+    import histcheck, copy
+    n = 0
+    for vi, (name, overrides) in enumerate(RVARIANTS):
+        storage = any(k.endswith('storage_unit') for k in overrides)
+        sel = gens_queries[:limit]
+        progs = [copy.deepcopy(rg.prog(qs)) for rg, qs in sel]
+        if storage:
+            for p in progs:
+                p['tol_k'] = 1000.0
+        try:
+            _, res = histcheck.run_job([], progs, overrides, f'{tag}_{vi}')
+        except Exception as e:  # noqa
+            chk.violation(f"recipes could not be run under configuration '{name}': {e}", {'relation': 'configuration variant ' + name}, found_input=False)
+            continue
+        for (rg, qs), prog, (out, qres) in zip(sel, progs, res):
+            n += len(prog['steps']) + len(qres)
+            try:
+                fails, known = oracle(prog, rg, out, qres)
+            except Exception:  # noqa
+                import traceback
+                fails, known = ['oracle crashed under a configuration variant: ' + traceback.format_exc()[-400:]], []
+            for key, what in known:
+                chk.known(key, what)
+            if fails:
+                chk.violation(f"under configuration '{name}': " + fails[0],
+                              {'recipe': prog, 'configuration': {k: str(v) for k, v in overrides.items()}, 'failures': fails[:5]})
+                break
+    return n
+
+
 def replay(path, oracle):
     r = json.load(open(path))
     prog = r.get('recipe')
@@ -768,8 +806,13 @@ def replay(path, oracle):
         print(i, json.dumps(s)[:200])
     print('stages', prog['stages'])
     rg = Replayed(prog)
-    out, rec, handles, helper, initial = run_recipe(prog)
-    qres = run_queries(prog, rec, handles, helper.subs) if out[0] == 'ok' else []
+    if r.get('configuration'):
+        import histcheck
+        print('configuration:', r['configuration'])
+        out, qres = histcheck.run_job([], [prog], histcheck.parse_overrides(r['configuration']), 'replay')[1][0]
+    else:
+        out, rec, handles, helper, initial = run_recipe(prog)
+        qres = run_queries(prog, rec, handles, helper.subs) if out[0] == 'ok' else []
     print('bake:', out[0], out[1:3] if out[0] == 'exc' else '')
     fails, known = oracle(prog, rg, out, qres)
     for key, what in known:
